@@ -414,6 +414,11 @@ pub fn run(ctx: &Ctx, st: &mut Stats, id: &str) {
         c.site.gmt = X((c.site.lon.0 / 15.0).round().clamp(-12.0, 12.0));
         c.weather = None;
         c.dangle = None;
+        if c.p.policy.starts_with("NearestGoodDay") {
+            // (a year-long search on each of ~80 000 no-twilight days of a high-latitude sweep site costs minutes;
+            // the nearest-good-day policies are exercised on the random inputs and by C08/C09)
+            c.p.policy = "None".into();
+        }
         st.sample(|| json!({"date_sweep": {"site": c.site, "p": c.p}, "dates": "1600-01-01..2399-12-31 (every day)"}));
         let before = st.decided;
         for day in day_lo()..=day_hi() {
